@@ -26,6 +26,7 @@ type c19Case struct {
 	Preset  bool      `json:"preset"`  // preset ids
 	Layout  []float64 `json:"layout"`  // startX, startY, colGap, rowGap, procGap ; nil = DefaultAutoLayoutConfig
 	N       int       `json:"n"`       // rawids: number of ids drawn
+	Reuse   int       `json:"reuse"`   // 0 fresh ProcessBuilder per process; 1 one builder reused after Out(); 2 reused builder that already produced a discarded process
 }
 
 func c19Activity(ti int, preset string) schema.ActivityInterface {
@@ -87,9 +88,9 @@ func c19Cases(tier string, seed uint64) []fw.Case {
 	}
 	li := 0
 	add := func(procs [][]int, preset bool) {
-		c := c19Case{Kind: "build", Procs: procs, Preset: preset, Layout: layouts[li%len(layouts)]}
+		c := c19Case{Kind: "build", Procs: procs, Preset: preset, Layout: layouts[li%len(layouts)], Reuse: (li / 2) % 3}
 		li++
-		c.Name = fmt.Sprintf("build/%v/preset=%v/layout%d", procs, preset, li%len(layouts))
+		c.Name = fmt.Sprintf("build/%v/preset=%v/layout%d/reuse%d", procs, preset, li%len(layouts), c.Reuse)
 		cs = append(cs, fw.MkCase("build", &c))
 	}
 	// all sequences of length 0..3 (quick: 0..2 exhaustively + strided length 3)
@@ -142,8 +143,19 @@ func c19Build(c *c19Case, env *fw.Env, v *fw.V) {
 	db := schema.NewDefinitionsBuilder()
 	var wantOrder []string
 	nact := 0
+	var shared *schema.ProcessBuilder
+	if c.Reuse > 0 {
+		shared = schema.NewProcessBuilder()
+		if c.Reuse == 2 {
+			shared.AddActivity(c19Activity(0, ""))
+			shared.Out()
+		}
+	}
 	for pi, seq := range c.Procs {
-		pb := schema.NewProcessBuilder()
+		pb := shared
+		if pb == nil {
+			pb = schema.NewProcessBuilder()
+		}
 		for ai, ti := range seq {
 			preset := ""
 			if c.Preset {
@@ -439,7 +451,7 @@ func init() {
 			v.Nontrivial = true
 			return v
 		},
-		Rule:        "all activity-type sequences of length 0..2 (quick; 0..3 thorough) and PRNG sequences up to length 12 over the 10 activity types (sub-processes with an inner start->end), with / without preset ids, 1..3 processes per definitions, layout configurations from the grid gaps {node size, size+1, 10x} x origins {0, -500, 1e6} plus the documented defaults: ids unique, every sequence flow's ends exist and list it, start/end events have no incoming/outgoing, shapes = flow nodes, edges = sequence flows, finite coordinates, edge ends on the border of their shapes, no overlapping shapes, XML round trip (C15 oracle), and the built process runs requesting the added activities once each in insertion order and completes; plus 5e5 / 2e6 raw draws from the builders' id source checked for consecutive duplicates; distinct = descriptor hash, all non-trivial",
+		Rule:        "all activity-type sequences of length 0..2 (quick; 0..3 thorough) and PRNG sequences up to length 12 over the 10 activity types (sub-processes with an inner start->end), with / without preset ids, 1..3 processes per definitions built by fresh process builders, by one builder reused after Out(), or by a builder that already produced another process, layout configurations from the grid gaps {node size, size+1, 10x} x origins {0, -500, 1e6} plus the documented defaults: ids unique, every sequence flow's ends exist and list it, start/end events have no incoming/outgoing, shapes = flow nodes, edges = sequence flows, finite coordinates, edge ends on the border of their shapes, no overlapping shapes, XML round trip (C15 oracle), and the built process runs requesting the added activities once each in insertion order and completes; plus 5e5 / 2e6 raw draws from the builders' id source checked for consecutive duplicates; distinct = descriptor hash, all non-trivial",
 		Assumptions: []string{"layout is checked for the flow nodes added through the builder (top level of each process)"},
 	})
 }
